@@ -256,7 +256,7 @@ theorem no_regions_no_hit (s : FState α) (g : String) (cmd : Cmd α) (hr : s.ex
   rw [anyLoop_no_regions xy _ this]; simp
 
 /-- … and likewise when exclusion is disabled -/
-theorem disabled_no_hit' (s : FState α) (g : String) (cmd : Cmd α) (hd : s.exclusionEnabled = false) :
+theorem disabled_never_hits (s : FState α) (g : String) (cmd : Cmd α) (hd : s.exclusionEnabled = false) :
     hits s g cmd = false :=
   hits_false_of s g cmd (fun ep fr fz xy => disabled_no_hit s ep fr fz xy hd)
 
